@@ -9,3 +9,4 @@ done
 rm -f /tmp/sany.$$
 cd ..
 PYTHONPATH=harness/shim:/repo /venv/bin/python -c "import sys; sys.path.insert(0,'harness'); import world; w = world.World(); print('harness ok', w.observe()['st'])"
+PYTHONHASHSEED=0 /venv/bin/python harness/pregen.py
